@@ -527,9 +527,9 @@ theorem merged_perm (vo : VOps V) (bo : BOps B) [DecidableEq B] (hcomm : ∀ a b
 
 /-! ### non-vacuity, and the counter-example behind `no_pid_label` -/
 
-/-- `Int` values (a commutative monoid with a strict order), natural-number bounds written in decimal -/
+/-- `Int` values (a commutative monoid with a strict order), natural-number bounds read from decimal digits and rendered in unary (injective, structurally recursive) -/
 def intV : VOps Int := ⟨0, (· + ·), (fun a b => decide (a < b)), (fun a b => decide (a ≤ b)), (fun x => x != 0)⟩
-def natB : BOps Nat := ⟨fun s => some (parseDigits s), (fun a b => decide (a < b)), fun n => decDigits n⟩
+def natB : BOps Nat := ⟨fun s => some (parseDigits s), (fun a b => decide (a < b)), fun n => List.replicate n '|'⟩
 
 def kC : Key := ⟨"c".toList, "c_total".toList, [], "counts".toList⟩
 def kG : Key := ⟨"g".toList, "g".toList, [("l".toList, "x".toList)], "a gauge".toList⟩
@@ -556,7 +556,7 @@ theorem typOf_mem (fs : List (SFile V)) (mn t : Str) (h : typOf fs mn = t) (ht :
     ∃ c ∈ contribs fs mn, c.typ = t := by
   unfold typOf at h
   cases hc : contribs fs mn with
-  | nil => rw [hc] at h; simp at h; exact absurd h.symm ht
+  | nil => rw [hc] at h; simp at h; exact absurd h ht
   | cons c r => rw [hc] at h; simp at h; exact ⟨c, List.mem_cons_self, h⟩
 
 theorem demo_keys : ∀ mn, typOf demoFiles mn = histogramType →
@@ -580,8 +580,8 @@ example : ∃ out, merge intV natB (demoFiles.map toFile) = .ok out ∧
     1|4|8, `_count` 8, `_sum` 8 -/
 example : value intV natB demoFiles "c".toList ("c_total".toList, []) = some 5 := by decide
 example : value intV natB demoFiles "g".toList ("g".toList, [("l".toList, "x".toList)]) = some (-1) := by decide
-example : value intV natB demoFiles "h".toList ("h_bucket".toList, [("le".toList, "5".toList)]) = some 4 := by decide
-example : value intV natB demoFiles "h".toList ("h_bucket".toList, [("le".toList, "100".toList)]) = some 8 := by decide
+example : value intV natB demoFiles "h".toList ("h_bucket".toList, [("le".toList, natB.fmt 5)]) = some 4 := by decide
+example : value intV natB demoFiles "h".toList ("h_bucket".toList, [("le".toList, natB.fmt 100)]) = some 8 := by decide
 example : value intV natB demoFiles "h".toList ("h_count".toList, []) = some 8 := by decide
 example : value intV natB demoFiles "h".toList ("h_sum".toList, []) = some 8 := by decide
 /-- after process 2 is marked dead its `livemin` file is gone (min becomes 5) while its counter still counts -/
@@ -609,10 +609,14 @@ def pidDemo : List (SFile Int) :=
     [(⟨"g".toList, "g".toList, [("pid".toList, "a".toList)], "gh".toList⟩, 1, 0),
      (⟨"g".toList, "g".toList, [("pid".toList, "b".toList)], "gh".toList⟩, 2, 0)]⟩]
 
+def pidDemoOut : List (List (Str × Labels × Int)) :=
+  match merge intV natB (pidDemo.map toFile) with
+  | .ok out => out.map (fun m => m.samples.map (fun s => (s.name, s.labels, s.value)))
+  | .error _ => []
+
+set_option synthInstance.maxSize 1000 in
 theorem pid_label_collides :
-    (match merge intV natB (pidDemo.map toFile) with
-      | .ok out => out.map (fun m => m.samples.map (fun s => (s.name, s.labels, s.value)))
-      | .error _ => [])
-    = [[("g".toList, [("pid".toList, "1".toList)], 1), ("g".toList, [("pid".toList, "1".toList)], 2)]] := by decide
+    pidDemoOut = [[("g".toList, [("pid".toList, "1".toList)], 1), ("g".toList, [("pid".toList, "1".toList)], 2)]] := by
+  decide
 
 end PromVerif.Props.C08
